@@ -68,14 +68,21 @@ impl PatternLinter for ModalOf {
     }
 
     fn match_to_lint(&self, matched_toks: &[Token], source_chars: &[char]) -> Option<Lint> {
-        let modal_index = match matched_toks.len() {
+        // The whitespace between two words can be more than one token (a space followed by a
+        // newline, for instance), so tell the cases apart by the words, not by the token count.
+        let word_indices: Vec<usize> = matched_toks
+            .iter()
+            .enumerate()
+            .filter(|(_, tok)| tok.kind.is_word())
+            .map(|(index, _)| index)
+            .collect();
+
+        let (modal_index, of_index) = match word_indices.as_slice() {
             // Without context, always an error from the start
-            3 => 0,
-            5 => {
+            [modal, of] => (*modal, *of),
+            [w1, w2, w3] => {
                 // False positives: modal _ of _ course / adj. _ might _ of / art. _ might _ of
-                let w3_text = matched_toks
-                    .last()
-                    .unwrap()
+                let w3_text = matched_toks[*w3]
                     .span
                     .get_content(source_chars)
                     .iter()
@@ -83,20 +90,19 @@ impl PatternLinter for ModalOf {
                 if w3_text.as_str() != "of" {
                     return None;
                 }
-                let w1_kind = &matched_toks.first().unwrap().kind;
+                let w1_kind = &matched_toks[*w1].kind;
                 // the might of something, great might of something
                 if w1_kind.is_adjective() || w1_kind.is_determiner() {
                     return None;
                 }
                 // not a false positive, skip context before
-                2
+                (*w2, *w3)
             }
             // False positive: <word> _ might _ of _ course
-            7 => return None,
-            _ => unreachable!(),
+            _ => return None,
         };
 
-        let span_modal_of = matched_toks[modal_index..modal_index + 3].span().unwrap();
+        let span_modal_of = matched_toks[modal_index..=of_index].span().unwrap();
 
         let modal_have = format!(
             "{} have",
